@@ -48,7 +48,10 @@ RULE = (
     "and fractions 0/1/64/127, both signs); opaque / attribute+opaque / inline-table lengths 0, 1, 127, 128, 129, 255, 256, "
     "16383, 16384; body lengths 124..132 and 16380..16388 (alone, before, between other documents, via an inline table); "
     "inline tables equal to / one octet different from / proper prefix of / longer than the standard table for every id "
-    "with inline table; two- and three-document buffers built from those documents.  Distinct by case hash (boundary pass: "
+    "with inline table; the same token / the same lookup N times in a row for N in {2..12, 16, 17, 31, 32, 33, 64, 100, 128, "
+    "255, 256, 257, 300}; two- and three-document buffers built from those documents.  mode_flags: the boundary documents "
+    "and random documents again with from_bytes(debug=True), after from_bytes(malformed, debug=True) raised, and with "
+    "MBXML.DEBUG on while serialising.  Distinct by case hash (boundary pass: "
     "de-duplicated list); "
     "non-trivial: >= 2 tokens, or >= 2 documents, or an inline constant table (documents, lookup); the parser got past the "
     "first document header (mutated)."
@@ -317,7 +320,12 @@ def _documents_inner(case):
     docs = case["docs"]
     parts = [R.document_bytes(d) for d in docs]
     buf = b"".join(parts)
-    _, parsed = bounded(M.from_bytes, buf, clause="canonical_buffer_parses")
+    mode = case.get("mode")
+    if mode == "failed_debug_parse_first":
+        call(M.from_bytes, bytes.fromhex(MALFORMED[case.get("k", 0) % len(MALFORMED)]), True, allowed=(Exception,))
+    _, parsed = bounded(M.from_bytes, buf, mode in ("debug_parse", "failed_debug_parse_first"), clause="canonical_buffer_parses")
+    if mode == "flag_on_while_serialising":
+        M.DEBUG = True
     if len(parsed) != len(docs):
         raise Fail("number_of_documents", len(parsed), len(docs))
     for k, (d, p, x) in enumerate(zip(docs, parsed, parts)):
@@ -374,6 +382,29 @@ def oracle_documents(case):
     """case = {docs: [{id, table: hex|None, tokens: [[token id, value], ...]}, ...]}"""
     with tables_guard():
         _documents_wrapped(_documents_inner, case)
+
+
+# The module's public mode switch: MBXML.DEBUG, set by from_bytes(data, debug=True) for the duration of a parse and left on
+# when such a parse raises.  Diagnostics must not change results: the same document clauses with
+#   debug_parse                  from_bytes(buffer, debug=True)
+#   failed_debug_parse_first     from_bytes(<malformed>, debug=True) raised just before, then from_bytes(buffer, debug=True)
+#   flag_on_while_serialising    MBXML.DEBUG = True while as_bytes runs
+# (stdout is silenced by the harness; the flag is restored in a finally block so that cases stay independent).
+DOC_MODES = ["debug_parse", "failed_debug_parse_first", "flag_on_while_serialising"]
+MALFORMED = ["0705", "07022204", "0d0370", "0d046c8080", "ff", "0d0a6900000000000000008380", "07"]
+
+
+def oracle_documents_modes(case):
+    """case = {mode, k, docs: [...]}"""
+    M = libs()[0]
+    try:
+        M.DEBUG = False
+        try:
+            oracle_documents(case)
+        except Fail as f:
+            raise Fail(f.clause + "__with_mode_flag", f.observed, f.expected, klass=case["mode"] + (":" + f.klass if f.klass else ""))
+    finally:
+        M.DEBUG = False
 
 
 # ---------------------------------------------------------------------------------------------- oracle: lookup
@@ -660,6 +691,7 @@ def _name_first(group_name):
 RET_INFO_ATTRS = {0x50: [[], [[0x50, 0x49]], [["ret-info-accuracy", 0x49]]], 0x51: [[], [[0x51, 0x49], [0x54, 0x49]]], 0x52: [[], [[0x54, 0x49]], [["ret-info-time", 0x49]]], 0x53: [[]]}
 
 LEN_EDGES = [0, 1, 127, 128, 129, 255, 256, 16383, 16384]
+REPEATS = [2, 3, 4, 5, 6, 7, 8, 9, 10, 11, 12, 16, 17, 31, 32, 33, 64, 100, 128, 255, 256, 257, 300]
 UINT_EDGES = [0, 1, 63, 64, 127, 128, 129, 255, 256, 8191, 8192, 16383, 16384, 16385, 2**21 - 1, 2**21, 2**28 - 1, 2**28, 2**31 - 1, 2**31, 2**32 - 1]
 FILLER = [0x22, "2468ace0"]
 
@@ -779,6 +811,20 @@ def boundary_document_cases():
             v = BOUNDARY_VALUES[group[tid][1]][k % len(BOUNDARY_VALUES[group[tid][1]])]
             cases.append(({"docs": [{"id": did, "table": table, "tokens": [FILLER, [tid, v]]}]}, "table_variant"))
             cases.append(({"docs": [{"id": did, "table": table, "tokens": []}, {"id": did, "table": BOUNDARY_TABLES[(k + 1) % len(BOUNDARY_TABLES)], "tokens": [[tid, v]]}]}, "table_variant_two_documents"))
+    # G. long homogeneous runs: the same token N times in a row (one token per value kind)
+    for did in (0x05, 0x07):
+        group = R.GROUPS[R.DOC_GROUP[did]]
+        seen_kinds = set()
+        for tid in sorted(group):
+            kind = group[tid][1]
+            if kind in seen_kinds:
+                continue
+            seen_kinds.add(kind)
+            vals = BOUNDARY_VALUES[kind]
+            for n in REPEATS:
+                cases.append(({"docs": [{"id": did, "table": None, "tokens": [[tid, vals[(n + j) % len(vals)] if j % 7 == 0 else vals[n % len(vals)]] for j in range(n)]}]}, "same_token_n_times"))
+    for n in REPEATS:
+        cases.append(({"docs": [{"id": 0x0F, "table": None, "tokens": [FILLER]}] * 1 + [{"id": 0x05, "table": None, "tokens": [[0x33, None]] * n}] + [{"id": 0x0B, "table": None, "tokens": []}]}, "same_token_n_times"))
     # F. two and three documents per buffer, built from the pass-A documents (every id and token occurs in a non-first position)
     for i in range(0, len(singles) - 2, 2):
         cases.append(({"docs": [singles[i], singles[(i * 7 + 3) % len(singles)]]}, "two_documents"))
@@ -826,6 +872,19 @@ def boundary_lookup_cases():
         for tid in sorted(group):
             for vi, v in enumerate(BOUNDARY_VALUES[group[tid][1]]):
                 cases.append(({"doc_id": did, "table": None if did in R.NCDT_IDS else "", "calls": [_call_for(gname, tid, v, vi)]}, "value_edge"))
+    # long homogeneous runs: the same lookup N times in a row (one token per value kind)
+    for did in (0x05, 0x07):
+        gname = R.DOC_GROUP[did]
+        group = R.GROUPS[gname]
+        seen_kinds = set()
+        for tid in sorted(group):
+            kind = group[tid][1]
+            if kind in seen_kinds:
+                continue
+            seen_kinds.add(kind)
+            vals = BOUNDARY_VALUES[kind]
+            for n in REPEATS:
+                cases.append(({"doc_id": did, "table": None, "calls": [_call_for(gname, tid, vals[n % len(vals)], n)] * n}, "same_call_n_times"))
     for n in LEN_EDGES:
         for did in (0x05, 0x07, 0x0A):
             gname = R.DOC_GROUP[did]
@@ -889,8 +948,34 @@ def drv_documents(ctx: Ctx, sub: SubCheck):
             t.cls(sub.name, k)
 
     def hyp(shard, t: Tally):
-        ctx.hypothesis(sub.name, S["docs"], oracle_documents, ctx.pick(1400, 7000), tally=t, shard=shard, record=rec)
+        ctx.hypothesis(sub.name, S["docs"], oracle_documents, ctx.pick(1100, 6000), tally=t, shard=shard, record=rec)
 
+    ctx.shards(hyp, list(range(ctx.pick(16, 80))))
+
+
+def drv_documents_modes(ctx: Ctx, sub: SubCheck):
+    base = boundary_document_cases()
+    cases = [(dict(c, mode=DOC_MODES[i % 3], k=i), cls + ":" + DOC_MODES[i % 3]) for i, (c, cls) in enumerate(base)]
+    # documents that carry floats: all three modes (diagnostics of the number readers)
+    for i, (c, cls) in enumerate(base):
+        kinds = {R.GROUPS[R.DOC_GROUP[d["id"]]][t[0]][1] for d in c["docs"] for t in d["tokens"]}
+        if kinds & {"ufloat", "sfloat", "point3d", "circle2d"}:
+            for m in DOC_MODES:
+                if m != DOC_MODES[i % 3]:
+                    cases.append((dict(c, mode=m, k=i), cls + ":" + m))
+    _run_boundary(ctx, sub, oracle_documents_modes, cases, _doc_nontrivial)
+    S = _strategies()
+    from hypothesis import strategies as st
+
+    strat = st.tuples(S["docs"], st.sampled_from(DOC_MODES), st.integers(0, 20)).map(lambda t: dict(t[0], mode=t[1], k=t[2]))
+
+    def rec(c, t: Tally):
+        t.case(sub.name, key=c, nontrivial=_doc_nontrivial(c), cls="random:" + c["mode"])
+
+    def hyp(shard, t: Tally):
+        ctx.hypothesis(sub.name, strat, oracle_documents_modes, ctx.pick(250, 1500), tally=t, shard=shard, record=rec)
+
+    warm_hypothesis_constants()
     ctx.shards(hyp, list(range(ctx.pick(16, 80))))
 
 
@@ -935,7 +1020,7 @@ def drv_mutated(ctx: Ctx, sub: SubCheck):
     warm_hypothesis_constants()
 
     def hyp(shard, t: Tally):
-        ctx.hypothesis(sub.name, S["mutated"], oracle_bytes, ctx.pick(1000, 4000), tally=t, shard=shard, record=_rec_bytes(sub.name))
+        ctx.hypothesis(sub.name, S["mutated"], oracle_bytes, ctx.pick(800, 3500), tally=t, shard=shard, record=_rec_bytes(sub.name))
 
     ctx.shards(hyp, list(range(ctx.pick(16, 80))))
 
@@ -1033,6 +1118,7 @@ SEED_MESSAGES = [
 
 SUBCHECKS = [
     SubCheck("documents", oracle_documents, drv_documents, "canonical buffers of 1..3 documents parse to the generated ids/tokens/values and re-serialise to identical bytes"),
+    SubCheck("mode_flags", oracle_documents_modes, drv_documents_modes, "the document clauses again inside from_bytes(debug=True), after a failed debug parse, and with MBXML.DEBUG on while serialising"),
     SubCheck("lookup", oracle_lookup, drv_lookup, "documents assembled via LRRP.get_token serialise to bytes that parse back to the same token ids, values and attribute values"),
     SubCheck("mutated", oracle_bytes, drv_mutated, "damaged/arbitrary buffers: parse terminates; if it parses, re-serialising raises only documented range rejections"),
     SubCheck("atheris", oracle_bytes, drv_atheris, "coverage-guided campaign (Atheris) on the 'mutated' oracle", tiers=("thorough",)),
